@@ -23,6 +23,11 @@ def run(chk, scratch):
     chk.add_tlc("LockFileTimed with a heartbeat writer that gives up at its first failed write (must violate LiveNeverStale)", r)
     if r.violated != "LiveNeverStale":
         raise vlib.Inconclusive("sensitivity self-test failed: LockFileTimed_stopwriter.cfg reported %s" % r.violated)
+    r = vlib.run_tlc(scratch, [SPEC], "LockFileTimed", "LockFileTimed_sweep.cfg", workers=4, timeout=300, fast=True)
+    vlib.tlc_must_pass(r, "LockFileTimed_sweep")
+    chk.add_tlc("LockFileTimed with a ReleaseIfStale by the holder itself that stops its heartbeat (must violate LiveNeverStale)", r)
+    if r.violated != "LiveNeverStale":
+        raise vlib.Inconclusive("sensitivity self-test failed: LockFileTimed_sweep.cfg reported %s" % r.violated)
     # 2. every death point of the holder (after each backend call of the acquisition and of the first heartbeat cycles),
     #    forced through the gate on both backends in model time
     dp, _ = common.record(vh, scratch, "c17", "deathpoints.ndjson", chk.seed, chk.tier, mode="deathpoints", timeout=900)
